@@ -314,6 +314,37 @@ func runC15(c *Ctx) {
 		c.count("root_" + t.kind)
 		c.count(fmt.Sprintf("reset_%v", useReset))
 	}
+	// numbers at every place where a formatter could change its mind: powers of two
+	// (the int64/uint64 limits among them) and their neighbours, powers of ten around
+	// the exponent-notation thresholds, as float64 and - when exactly representable -
+	// as float32; alone and inside containers
+	for _, f := range floatSweep() {
+		nodes := []*jnode{{kind: "f64", f: f}}
+		if float64(float32(f)) == f {
+			nodes = append(nodes, &jnode{kind: "f32", f32: float32(f)})
+		}
+		for _, leaf := range nodes {
+			for _, t := range []*jnode{leaf, {kind: "arr", kids: []*jnode{leaf, leaf}}, {kind: "obj", kids: []*jnode{leaf}, names: []string{"x"}}} {
+				if t != leaf && c.Tier != "thorough" && c.rng.Chance(70) {
+					continue
+				}
+				var o plenccodec.JSONOutput
+				t.emit(&o)
+				out := o.Done()
+				desc := fmt.Sprintf("number sweep %s %v -> %q", leaf.kind, f, trunc(string(out), 120))
+				dec := json.NewDecoder(bytes.NewReader(out))
+				dec.UseNumber()
+				var parsed any
+				if err := dec.Decode(&parsed); err != nil {
+					c.native = append(c.native, NativeViolation{Case: desc, What: "output is not valid JSON: " + err.Error(), Class: "invalid-json"})
+				} else if !sameJSON(t.expect(), parsed) {
+					c.native = append(c.native, NativeViolation{Case: desc, What: fmt.Sprintf("parse differs from the call tree: %v vs %v", parsed, t.expect()), Class: "wrong-json"})
+				}
+				c.add(fmt.Sprintf("K15Tree %s %s", t.coqTree(), coqBytes(out)), desc, "number-sweep/"+leaf.kind+"/"+t.kind, true)
+				c.count("number_sweep")
+			}
+		}
+	}
 	// Reset in the middle of an unfinished document
 	for i := 0; i < scale(c, 100, 2000); i++ {
 		var o plenccodec.JSONOutput
@@ -498,6 +529,43 @@ func runC15Histories(c *Ctx, vg *ValGen) {
 		}
 		run(hist, cuts, last, "reset-history/random")
 	}
+}
+
+func floatSweep() []float64 {
+	var out []float64
+	add := func(f float64) {
+		if !math.IsNaN(f) && !math.IsInf(f, 0) {
+			out = append(out, f, -f)
+		}
+	}
+	for k := -1074; k <= 1023; k++ {
+		if k > 70 && k < 1020 && k%64 != 0 || k < -30 && k > -1070 && k%64 != 0 {
+			continue
+		}
+		p := math.Ldexp(1, k)
+		add(p)
+		add(math.Nextafter(p, math.Inf(1)))
+		add(math.Nextafter(p, 0))
+		if k >= 1 && k <= 64 {
+			add(p - 1)
+			add(p + 1)
+		}
+	}
+	for e := -10; e <= 25; e++ {
+		p := math.Pow(10, float64(e))
+		add(p)
+		add(math.Nextafter(p, math.Inf(1)))
+		add(math.Nextafter(p, 0))
+		add(p * 1.5)
+		add(p * 9.999)
+	}
+	add(math.MaxFloat64)
+	add(math.SmallestNonzeroFloat64)
+	add(float64(math.MaxFloat32))
+	add(float64(math.SmallestNonzeroFloat32))
+	add(0.1)
+	add(123456789.125)
+	return out
 }
 
 func jdepth(n *jnode) int {
